@@ -120,6 +120,9 @@ class Ctx:
         """Run TLC; accumulate states/transitions/coverage.  With must_hold, a violated
         invariant of the *model* is a machinery failure unless the caller handles it."""
         kw.setdefault("seed", self.seed % (2**31))
+        # a floor under every caller's timeout: on a loaded machine (load 40-60 when many checks run side by side)
+        # TLC runs that take 2-3 minutes alone were seen to need 15; a timeout is a machinery failure, never a verdict
+        kw["timeout"] = max(kw.get("timeout") or 0, 2400 if self.quick else 7200)
         r = _tlc.run_tlc(module, cfg, self.work, **kw)
         self.states += r.distinct
         self.transitions += r.generated
